@@ -1,1 +1,14 @@
 import PvProofs.C01
+#print axioms PvProofs.C01.split_exact
+#print axioms PvProofs.C01.split_prices_positive
+#print axioms PvProofs.C01.split_hold
+#print axioms PvProofs.C01.split_checker_sound
+#print axioms PvProofs.C01.buildSettlement_eq
+#print axioms PvProofs.C01.at_most_one_partial
+#print axioms PvProofs.C01.orders_filled_exactly
+#print axioms PvProofs.C01.conservation
+#print axioms PvProofs.C01.transfers_balanced
+#print axioms PvProofs.C01.account_deltas
+#print axioms PvProofs.C01.fee_inputs_exact
+#print axioms PvProofs.C01.fee_formula
+#print axioms PvProofs.C01.filled_is_reordering
